@@ -8,6 +8,9 @@ Each one rewrites every *.py file below a root IN PLACE with `ast.unparse`:
             `if c: A` gets a guard clause (`if not c: return` + A); `not c` is simplified for ==, in, is and double negation
   temps     inside functions: `return E` -> `_ret_tmp1 = E; return _ret_tmp1`, `raise E` -> `_exc_tmp2 = E; raise _exc_tmp2`,
             `if C:` -> `_cond_tmp3 = C; if _cond_tmp3:` (never for `elif`; temporaries numbered per function)
+  walrus    `if (t := E):` -> `t = E; if t:`, also for the first operand of an `and` test
+  else      an `if` whose body ends in return/raise/continue/break takes the following statements as its else branch; one that
+            already has such an else releases it
   reorder   each run of consecutive undecorated methods of a class / undecorated top-level functions (not referenced by
             module-level code) is reversed
 
@@ -318,6 +321,100 @@ def _temps_module(tree: ast.Module) -> int:
     return t.count
 
 
+TERMINATORS = (ast.Return, ast.Raise, ast.Continue, ast.Break)
+
+
+class ElseSwapper:
+    """`if c: ...; return` followed by REST  <->  `if c: ...; return` `else: REST`.  An `if` whose body ends in return / raise /
+    continue / break and that has no else swallows the statements after it as its else branch; one that has an else (not an elif
+    chain) after such a body releases it.  Every site is flipped once."""
+
+    def __init__(self):
+        self.count = 0
+
+    def block(self, stmts: list[ast.stmt]) -> list[ast.stmt]:
+        out: list[ast.stmt] = []
+        i = 0
+        while i < len(stmts):
+            st = stmts[i]
+            for f in ("body", "orelse", "finalbody"):
+                sub = getattr(st, f, None)
+                if isinstance(sub, list) and sub and isinstance(sub[0], ast.stmt) and not (isinstance(st, ast.If) and f == "orelse" and len(sub) == 1 and isinstance(sub[0], ast.If)):
+                    setattr(st, f, self.block(sub))
+                elif isinstance(sub, list) and sub and isinstance(sub[0], ast.If) and f == "orelse":
+                    sub[0].body = self.block(sub[0].body)  # elif chains: only their bodies
+            for h in getattr(st, "handlers", []) or []:
+                h.body = self.block(h.body)
+            for c in getattr(st, "cases", []) or []:
+                c.body = self.block(c.body)
+            if isinstance(st, ast.If) and st.body and isinstance(st.body[-1], TERMINATORS):
+                rest = stmts[i + 1:]
+                if not st.orelse and rest and not any(isinstance(r, (ast.FunctionDef, ast.AsyncFunctionDef, ast.ClassDef, ast.Global, ast.Nonlocal)) for r in rest):
+                    self.count += 1
+                    st.orelse = self.block(rest)
+                    out.append(st)
+                    return out
+                if st.orelse and not (len(st.orelse) == 1 and isinstance(st.orelse[0], ast.If)):
+                    self.count += 1
+                    released, st.orelse = st.orelse, []
+                    out.append(st)
+                    out.extend(released)
+                    i += 1
+                    continue
+            out.append(st)
+            i += 1
+        return out
+
+
+def _else_module(tree: ast.Module) -> int:
+    sw = ElseSwapper()
+    for fn in [n for n in ast.walk(tree) if isinstance(n, (ast.FunctionDef, ast.AsyncFunctionDef))]:
+        fn.body = sw.block(fn.body)
+    ast.fix_missing_locations(tree)
+    return sw.count
+
+
+class WalrusRemover:
+    """`if (t := E):` -> `t = E; if t:` and `if (t := E) and REST:` -> `t = E; if t and REST:` (never for `elif` / `while`)."""
+
+    def __init__(self):
+        self.count = 0
+
+    def block(self, stmts: list[ast.stmt], elif_position: bool = False) -> list[ast.stmt]:
+        out: list[ast.stmt] = []
+        for i, st in enumerate(stmts):
+            for f in ("body", "orelse", "finalbody"):
+                sub = getattr(st, f, None)
+                if isinstance(sub, list) and sub and isinstance(sub[0], ast.stmt):
+                    is_elif = f == "orelse" and isinstance(st, ast.If) and len(sub) == 1 and isinstance(sub[0], ast.If)
+                    setattr(st, f, self.block(sub, elif_position=is_elif))
+            for h in getattr(st, "handlers", []) or []:
+                h.body = self.block(h.body)
+            for c in getattr(st, "cases", []) or []:
+                c.body = self.block(c.body)
+            if isinstance(st, ast.If) and not (elif_position and i == 0):
+                t = st.test
+                first = t.values[0] if isinstance(t, ast.BoolOp) and isinstance(t.op, ast.And) else t
+                if isinstance(first, ast.NamedExpr) and isinstance(first.target, ast.Name):
+                    self.count += 1
+                    out.append(ast.Assign(targets=[ast.Name(id=first.target.id, ctx=ast.Store())], value=first.value))
+                    load = ast.Name(id=first.target.id, ctx=ast.Load())
+                    if first is t:
+                        st.test = load
+                    else:
+                        t.values[0] = load
+            out.append(st)
+        return out
+
+
+def _walrus_module(tree: ast.Module) -> int:
+    w = WalrusRemover()
+    for fn in [n for n in ast.walk(tree) if isinstance(n, (ast.FunctionDef, ast.AsyncFunctionDef))]:
+        fn.body = w.block(fn.body)
+    ast.fix_missing_locations(tree)
+    return w.count
+
+
 def apply(root: str, which: tuple[str, ...], suffix: str = "_r") -> int:
     """Applies the named transformations (in the order reorder, invert, rename) to every *.py below `root`, in place."""
     total = 0
@@ -336,6 +433,10 @@ def apply(root: str, which: tuple[str, ...], suffix: str = "_r") -> int:
             if "invert" in which:
                 tree, n = _invert_module(tree)
                 k += n
+            if "walrus" in which:
+                k += _walrus_module(tree)
+            if "else" in which:
+                k += _else_module(tree)
             if "temps" in which:
                 k += _temps_module(tree)
             if "rename" in which:
